@@ -1,6 +1,5 @@
 import DuneVerif.Proofs.C08Ev2Scaled
-import DuneVerif.Proofs.C08Ev3
-import DuneVerif.Proofs.C08Ev3Roots
+import DuneVerif.Proofs.C08Ev3Top
 import DuneVerif.Proofs.C08Lapack
 /-!
 # C08 — property theorems: the closed-form eigenvalue routines in exact arithmetic
@@ -8,13 +7,17 @@ import DuneVerif.Proofs.C08Lapack
 All statements are about the model `DuneVerif/Model/C08.lean` instantiated at `ℝ` with `Real.sqrt`, built on the
 formulas and thresholds that `tools/translators/tr_c08.py` regenerates from `dune/common/fmatrixev.hh`
 (`DuneVerif/Gen/C08.lean`).  Vocabulary (`Sym2`, `charPoly2`, `mulVec2`, `dot2`, `Vieta`, `IsRightEig`, …) is defined in
-`Proofs/C08Basic.lean`, `Proofs/C08Ev2.lean`, `Proofs/C08Lapack.lean`.
+`Proofs/C08Basic.lean`, `Proofs/C08Ev2.lean`, `Proofs/C08Lapack.lean`; `EigTriple` (three unit, mutually orthogonal vectors
+`vᵢ` with `(A - λᵢ I) vᵢ = 0`) in `Proofs/C08Ev3Vec.lean`, `resid2 A λ v = ‖(A - λ I) v‖²` in `Proofs/C08Ev3Top.lean`.
 
 Floating-point accuracy (residual sizes, ordering up to round-off) is *not* the subject of these theorems; it is
 measured by the harness oracle.  What is proved: exact-arithmetic correctness of the 2x2 closed form including the
 eigenvector choice with the code's threshold, its invariance under scaling of the matrix (which needs the threshold
-to be relative), the algebra behind the 3x3 eigenvector construction and the scale/trace/order structure of the 3x3
-path, and the index arithmetic of the LAPACK hand-over.
+to be relative); for the 3x3 path: the returned values are the whole spectrum (factorisation of the characteristic
+polynomial; the clamp of `r` is never active), the complete eigenvector construction `eig0`/`orthoComp`/`eig1`/cross
+product/sort returns an orthonormal eigen-decomposition, the diagonal special case returns coordinate vectors whose
+residual is bounded by `sqrt(eps)` times the max norm, the two entry points agree, and everything scales exactly with
+the matrix; the 1x1 case; and the index arithmetic of the LAPACK hand-over.
 -/
 namespace DV.C08
 
@@ -140,6 +143,27 @@ theorem ev2_scale_invariant (eps s : ℝ) (hs : 0 < s) (A : M2 ℝ) (hsym : Sym2
 
 example : (0 : ℝ) < 2 ^ (-498 : ℤ) ∧ Sym2 ⟨0, 1, 1, 0⟩ := ⟨zpow_pos (by norm_num) _, rfl⟩
 
+/-- **ev2_entry_points_agree.** The eigenvalue-only and the eigenvalue+eigenvector entry point of the 2x2 code return
+the same eigenvalues (or the same error) for every matrix, every `sqrt` and every threshold parameter. -/
+theorem ev2_entry_points_agree (sqrt : ℝ → ℝ) (eps : ℝ) (A : M2 ℝ) :
+    (eigenValuesVectors2x2 sqrt eps A).map Prod.fst = eigenValues2x2 sqrt A := by
+  unfold eigenValuesVectors2x2 eigenValues2x2 eigenValuesVectors2d
+  rcases h : eigenValues2d sqrt (sdiv2 A (preScale2 A)) with e | ⟨l0, l1⟩ <;> simp [Except.map, h]
+
+example : (eigenValuesVectors2x2 Real.sqrt 0 (⟨2, 0, 0, 2⟩ : M2 ℝ)).map Prod.fst = eigenValues2x2 Real.sqrt ⟨2, 0, 0, 2⟩ :=
+  ev2_entry_points_agree _ _ _
+
+/-! ## 1x1 -/
+
+/-- **ev1_exact.** For a 1x1 matrix `(a)` both entry points return `a`; the vector `(1)` has unit length and
+`a · 1 = λ · 1`. -/
+theorem ev1_exact (a : ℝ) :
+    eigenValues1d a = a ∧ (eigenValuesVectors1d a).1 = a ∧
+      (eigenValuesVectors1d a).2 * (eigenValuesVectors1d a).2 = 1 ∧
+      a * (eigenValuesVectors1d a).2 = (eigenValuesVectors1d a).1 * (eigenValuesVectors1d a).2 := by
+  unfold eigenValues1d eigenValuesVectors1d one
+  simp
+
 /-! ## 3x3 -/
 
 /-- **cross_in_kernel.** If `S = A - λI` is singular (λ is an eigenvalue), the cross product of any two of its rows is
@@ -222,43 +246,118 @@ theorem ev3_scaling_exact (sqrt acos cos : ℝ → ℝ) (pi eps s : ℝ) (hs : 0
 example : (0 : ℝ) < infNorm3 ⟨1, 0, 0, 0, 2, 0, 0, 0, 3⟩ := by rw [infNorm3_eq]; norm_num
 
 
-/-- **ev3_roots_partial.**  Full statement (Tier B): *for every real symmetric 3x3 matrix the three values returned by
-`FMatrixHelp::eigenValues` are the roots of the characteristic polynomial.*  Proved here, with `Real.sqrt`,
-`Real.arccos`, `Real.cos`, `π`:
-(a) for exactly diagonal matrices (the sorted diagonal is returned), and
-(b) in the trigonometric branch (Smith 1961: `λ = q + 2p cos(φ + 2πk/3)`, `cos 3φ = r`) under the hypothesis that
-    the unclamped `r = det((A-qI)/p)/2` lies in `[-1,1]`.
-Missing: the proof that `|r| ≤ 1` holds for every symmetric matrix (it is equivalent to the spectrum being real), and
-the nearly diagonal case `0 < p1 ≤ eps` of the scaled matrix, where the code returns the diagonal as an
-approximation (error of the order `sqrt eps`), so the exact statement does not hold there by design. -/
-theorem ev3_roots_partial (eps : ℝ) (he : 0 ≤ eps) (A : M3 ℝ) (hs : Sym3 A)
-    (hcase : (A.a01 = 0 ∧ A.a02 = 0 ∧ A.a12 = 0) ∨
-      (¬ DiagBranch eps (sdiv3 A (maxAbsElement A)) ∧
-        -1 ≤ rawR (sdiv3 A (maxAbsElement A)) ∧ rawR (sdiv3 A (maxAbsElement A)) ≤ 1)) :
-    charPoly3 A (eigenValues3d Real.sqrt Real.arccos Real.cos Real.pi eps A).1 = 0 ∧
-    charPoly3 A (eigenValues3d Real.sqrt Real.arccos Real.cos Real.pi eps A).2.1 = 0 ∧
-    charPoly3 A (eigenValues3d Real.sqrt Real.arccos Real.cos Real.pi eps A).2.2 = 0 := by
+/-- **ev3_clamp_inactive.** For a symmetric matrix that is not treated as diagonal, `r = det((A - qI)/p)/2` computed
+by the code lies in `[-1, 1]` in exact arithmetic: the clamp only guards against round-off.  (Uses that a real
+symmetric matrix has a real spectrum — Mathlib's spectral theorem — and the discriminant of the cubic.) -/
+theorem ev3_clamp_inactive (eps : ℝ) (he : 0 ≤ eps) (A : M3 ℝ) (hs : Sym3 A)
+    (hb : ¬ DiagBranch eps (sdiv3 A (maxAbsElement A))) :
+    -1 ≤ rawR (sdiv3 A (maxAbsElement A)) ∧ rawR (sdiv3 A (maxAbsElement A)) ≤ 1 :=
+  rawR_abs_le_one _ (sdiv3_sym A _ hs) (p1Of_pos_of_not_diag eps he _ hb)
+
+/-- **ev3_spectrum.** For every real symmetric 3x3 matrix that is exactly diagonal, or not treated as diagonal by the
+code (`p1 > eps` on the max-norm-scaled matrix), the three values returned by `FMatrixHelp::eigenValues` are the
+*whole spectrum with multiplicity*: the characteristic polynomial factors as `(t - λ₀)(t - λ₁)(t - λ₂)`
+(Smith 1961: `λ = q + 2p cos(φ + 2πk/3)`, `cos 3φ = r`; no assumption on `r`, see `ev3_clamp_inactive`).
+In the remaining case `0 < p1 ≤ eps` (nearly diagonal) the code returns the sorted diagonal *by design* as an
+approximation; there the exact statement is false and is replaced by the residual bound of `ev3_vectors_diag`. -/
+theorem ev3_spectrum (eps : ℝ) (he : 0 ≤ eps) (A : M3 ℝ) (hs : Sym3 A)
+    (hcase : (A.a01 = 0 ∧ A.a02 = 0 ∧ A.a12 = 0) ∨ ¬ DiagBranch eps (sdiv3 A (maxAbsElement A))) :
+    ∀ t : ℝ, charPoly3 A t =
+      (t - (eigenValues3d Real.sqrt Real.arccos Real.cos Real.pi eps A).1) *
+      (t - (eigenValues3d Real.sqrt Real.arccos Real.cos Real.pi eps A).2.1) *
+      (t - (eigenValues3d Real.sqrt Real.arccos Real.cos Real.pi eps A).2.2) := by
   have hm := (maxAbsElement_pos A).ne'
   have hS := sdiv3_sym A (maxAbsElement A) hs
-  have key : charPoly3 (sdiv3 A (maxAbsElement A))
-        (eigenValues3dImpl Real.sqrt Real.arccos Real.cos Real.pi eps (sdiv3 A (maxAbsElement A))).1.1 = 0 ∧
-      charPoly3 (sdiv3 A (maxAbsElement A))
-        (eigenValues3dImpl Real.sqrt Real.arccos Real.cos Real.pi eps (sdiv3 A (maxAbsElement A))).1.2.1 = 0 ∧
-      charPoly3 (sdiv3 A (maxAbsElement A))
-        (eigenValues3dImpl Real.sqrt Real.arccos Real.cos Real.pi eps (sdiv3 A (maxAbsElement A))).1.2.2 = 0 := by
-    rcases hcase with ⟨h01, h02, h12⟩ | ⟨hb, hr1, hr2⟩
-    · obtain ⟨s10, s20, s21⟩ := hs
-      apply impl_diag_roots Real.sqrt Real.arccos Real.cos Real.pi eps he
-      unfold sdiv3
-      simp only [h01, h02, h12, s10, s20, s21, zero_div, and_self]
-    · exact impl_trig_roots eps he _ hS hb ⟨hr1, hr2⟩
   unfold eigenValues3d
-  exact ⟨charPoly3_unscale A _ _ hm key.1, charPoly3_unscale A _ _ hm key.2.1, charPoly3_unscale A _ _ hm key.2.2⟩
+  apply charPoly3_unscale_factor A _ _ _ _ hm
+  rcases hcase with ⟨h01, h02, h12⟩ | hb
+  · obtain ⟨s10, s20, s21⟩ := hs
+    apply diag_factor Real.sqrt Real.arccos Real.cos Real.pi eps he
+    unfold sdiv3
+    simp only [h01, h02, h12, s10, s20, s21, zero_div, and_self]
+  · exact trig_factor eps he _ hS hb
 
-/-- the diagonal case is inhabited; so is the trigonometric one: for `[[0,1,0],[1,0,0],[0,0,0]]` (max norm 1)
-`p1 = 1 > eps` and `r = 0` -/
+/-- the trigonometric case is inhabited: for `[[0,1,0],[1,0,0],[0,0,0]]` (max norm 1) `p1 = 1 > eps` -/
 example : ¬ DiagBranch ((2 : ℝ) ^ (-52 : ℤ)) (⟨0, 1, 0, 1, 0, 0, 0, 0, 0⟩ : M3 ℝ) := by
   unfold DiagBranch p1Of Gen.ev3_p1 Gen.ev3_diagThreshold
+  norm_num
+
+/-- **ev3_entry_points_agree.** `FMatrixHelp::eigenValues` and the eigenvalues returned by
+`FMatrixHelp::eigenValuesVectors` coincide for every 3x3 matrix (in both branches, for arbitrary elementary
+functions): the diagonal special case of the eigenvector routine overwrites the values by the same sorted diagonal, and
+the stable sort of the (value, vector) pairs leaves the already sorted values in place. -/
+theorem ev3_entry_points_agree (sqrt acos cos : ℝ → ℝ) (pi eps : ℝ) (A : M3 ℝ) :
+    (eigenValuesVectors3d sqrt acos cos pi eps A).1 = eigenValues3d sqrt acos cos pi eps A :=
+  entry_points_agree3 sqrt acos cos pi eps A
+
+/-- **ev3_vectors.** For every real symmetric 3x3 matrix that the code does not treat as diagonal, the vectors returned
+by `FMatrixHelp::eigenValuesVectors` (`eig0` for the simple extreme eigenvalue selected by the sign of `r`, `orthoComp`
+and `eig1` with all branches for the middle one, the cross product for the third, stable sort of the pairs) are unit
+vectors, mutually orthogonal, and satisfy `(A - λᵢ I) vᵢ = 0` for the returned eigenvalues — including repeated
+eigenvalues (then `eig1` works on a zero or rank-one reduced matrix). -/
+theorem ev3_vectors (eps : ℝ) (he : 0 ≤ eps) (A : M3 ℝ) (hs : Sym3 A)
+    (hb : diagBranchVec eps (sdiv3 A (maxAbsElement A)) = false) :
+    EigTriple A (eigenValuesVectors3d Real.sqrt Real.arccos Real.cos Real.pi eps A).1.1
+      (eigenValuesVectors3d Real.sqrt Real.arccos Real.cos Real.pi eps A).1.2.1
+      (eigenValuesVectors3d Real.sqrt Real.arccos Real.cos Real.pi eps A).1.2.2
+      (eigenValuesVectors3d Real.sqrt Real.arccos Real.cos Real.pi eps A).2.1
+      (eigenValuesVectors3d Real.sqrt Real.arccos Real.cos Real.pi eps A).2.2.1
+      (eigenValuesVectors3d Real.sqrt Real.arccos Real.cos Real.pi eps A).2.2.2 :=
+  vectors3d_trig_correct eps he A hs hb
+
+/-- the hypotheses of `ev3_vectors` are satisfiable: `[[0,1,0],[1,0,0],[0,0,0]]` (eigenvalues -1, 0, 1), also with a
+repeated eigenvalue: `[[0,1,1],[1,0,1],[1,1,0]]` (eigenvalues -1, -1, 2; max norm 2) -/
+example : Sym3 (⟨0, 1, 0, 1, 0, 0, 0, 0, 0⟩ : M3 ℝ) ∧
+    diagBranchVec ((2 : ℝ) ^ (-52 : ℤ)) (sdiv3 (⟨0, 1, 0, 1, 0, 0, 0, 0, 0⟩ : M3 ℝ) (maxAbsElement ⟨0, 1, 0, 1, 0, 0, 0, 0, 0⟩)) = false := by
+  refine ⟨⟨rfl, rfl, rfl⟩, ?_⟩
+  have hm : maxAbsElement (⟨0, 1, 0, 1, 0, 0, 0, 0, 0⟩ : M3 ℝ) = 1 := by
+    unfold maxAbsElement
+    rw [infNorm3_eq]
+    norm_num [zero, one]
+  rw [hm]
+  unfold diagBranchVec
+  rw [decide_eq_false_iff_not, norm2_3_eq]
+  unfold sdiv3 Gen.ev3_vecThreshold
+  norm_num
+
+example : Sym3 (⟨0, 1, 1, 1, 0, 1, 1, 1, 0⟩ : M3 ℝ) ∧
+    diagBranchVec ((2 : ℝ) ^ (-52 : ℤ)) (sdiv3 (⟨0, 1, 1, 1, 0, 1, 1, 1, 0⟩ : M3 ℝ) (maxAbsElement ⟨0, 1, 1, 1, 0, 1, 1, 1, 0⟩)) = false := by
+  refine ⟨⟨rfl, rfl, rfl⟩, ?_⟩
+  have hm : maxAbsElement (⟨0, 1, 1, 1, 0, 1, 1, 1, 0⟩ : M3 ℝ) = 2 := by
+    unfold maxAbsElement
+    rw [infNorm3_eq]
+    norm_num [zero, one]
+  rw [hm]
+  unfold diagBranchVec
+  rw [decide_eq_false_iff_not, norm2_3_eq]
+  unfold sdiv3 Gen.ev3_vecThreshold
+  norm_num
+
+/-- **ev3_vectors_diag.** In the diagonal special case (`offDiagNorm ≤ eps` on the max-norm-scaled matrix) of a
+symmetric matrix the returned vectors are coordinate vectors: exactly of unit length and mutually orthogonal, and the
+residuals `(A - λᵢ I) vᵢ` for the returned (sorted diagonal) values have squared length at most `eps · m²`, i.e. length
+at most `sqrt(eps)` times the max norm `m` of `A` — the accuracy class the property states for the 3x3 closed form.
+The values are ascending by `ev3_entry_points_agree` and `ev3_ascending`. -/
+theorem ev3_vectors_diag (sqrt acos cos : ℝ → ℝ) (pi eps : ℝ) (A : M3 ℝ) (hs : Sym3 A)
+    (hb : diagBranchVec eps (sdiv3 A (maxAbsElement A)) = true) :
+    let R := eigenValuesVectors3d sqrt acos cos pi eps A
+    let m := maxAbsElement A
+    norm2_3 R.2.1 = 1 ∧ norm2_3 R.2.2.1 = 1 ∧ norm2_3 R.2.2.2 = 1 ∧
+      dot3 R.2.1 R.2.2.1 = 0 ∧ dot3 R.2.1 R.2.2.2 = 0 ∧ dot3 R.2.2.1 R.2.2.2 = 0 ∧
+      resid2 A R.1.1 R.2.1 ≤ eps * (m * m) ∧ resid2 A R.1.2.1 R.2.2.1 ≤ eps * (m * m) ∧
+      resid2 A R.1.2.2 R.2.2.2 ≤ eps * (m * m) :=
+  vectors3d_diag_correct sqrt acos cos pi eps A hs hb
+
+/-- the diagonal special case is inhabited by a matrix that is not exactly diagonal: off-diagonal `2⁻³⁰` -/
+example : diagBranchVec ((2 : ℝ) ^ (-52 : ℤ)) (sdiv3 (⟨1, 0, 0, 0, 0, 0, 0, 0, 0⟩ : M3 ℝ) (maxAbsElement ⟨1, 0, 0, 0, 0, 0, 0, 0, 0⟩)) = true := by
+  have hm : maxAbsElement (⟨1, 0, 0, 0, 0, 0, 0, 0, 0⟩ : M3 ℝ) = 1 := by
+    unfold maxAbsElement
+    rw [infNorm3_eq]
+    norm_num [zero, one]
+  rw [hm]
+  unfold diagBranchVec
+  rw [decide_eq_true_eq, norm2_3_eq]
+  unfold sdiv3 Gen.ev3_vecThreshold
   norm_num
 
 /-! ## LAPACK hand-over (any commutative ring) -/
